@@ -20,7 +20,7 @@ pub fn register_ops_file(path: &str) {
 }
 
 const NUMS: &[&str] = &["1", "42", "0.5", "1.10", "7", "1234567890123456789012345678", "0.0000000000000000000000000001", "3.", "007"];
-const STRS: &[&str] = &["'a'", "\"b c\"", "''", "'x\"y'", "\"it's\"", "'é€😀'", "' 1 + 2 '", "'(,;'"];
+const STRS: &[&str] = &["'a'", "\"b c\"", "''", "'x\"y'", "\"it's\"", "'é€😀'", "' 1 + 2 '", "'(,;'", "','", "':'", "')'", "']'", "'}'", "';'", "\",\"", "'?'"];
 const NAME_TAILS: &[&str] = &["", "", "1", "_t", ".b", "_9.q"];
 const NAME_HEADS: &[&str] = &["", "", "", "é", "@", "_"];
 
